@@ -789,6 +789,10 @@ def unmarshal_array(ct, data, offset, lendian, oobFDs):
         nbytes, value = unmarshallers[tcode](
             tsig, data, offset, lendian, oobFDs)
 
+        if nbytes <= 0:
+            # e.g. an empty struct as element type: no progress is possible
+            raise MarshallingError('Invalid array element type: ' + tsig)
+
         offset += nbytes
         values.append(value)
 
